@@ -395,7 +395,7 @@ def check_property(pid, tier, only_units=None):
     try:
         verus_units = [u for u in sel if u['engine'] == 'verus']
         kani_units_ = [u for u in sel if u['engine'] != 'verus']
-        with cf.ThreadPoolExecutor(max_workers=4) as ex:
+        with cf.ThreadPoolExecutor(max_workers=8) as ex:
             futs = [ex.submit(run_unit, u, workdir, tier) for u in verus_units]
             # Kani units share one scratch workspace: run them sequentially in this thread
             for u in kani_units_:
